@@ -40,6 +40,12 @@ def impl_env():
     return env
 
 
+class ImplCrash(RuntimeError):
+    """the implementation-side harness died with an exception it does not handle: on the unchanged tree this does not
+    happen, so the implementation no longer behaves as the harness (and the model) expect -- reported as a broken
+    correspondence, not as a machinery error"""
+
+
 def run_impl(script, payload, timeout=1500):
     """Run tools/impl/<script> on the implementation (/repo working tree) with a
     JSON payload on stdin; returns parsed JSON from stdout."""
@@ -48,7 +54,7 @@ def run_impl(script, payload, timeout=1500):
     p = subprocess.run([PY, path], input=json.dumps(payload), capture_output=True, text=True,
                        env=impl_env(), timeout=timeout, cwd=BUILD)
     if p.returncode != 0:
-        raise RuntimeError(f"implementation harness {script} failed:\n{p.stderr[-4000:]}")
+        raise ImplCrash(f"implementation harness {script} failed:\n{p.stderr[-4000:]}")
     out = p.stdout
     k = out.rfind("\n@@JSON@@")
     if k >= 0:
